@@ -13,7 +13,7 @@
 (* trace specification on snapshots recorded from the real library.        *)
 (* Every clause returns a set of failure records; the verdict is total.    *)
 (***************************************************************************)
-EXTENDS Circuit
+EXTENDS Export
 
 Fail(clause, obj, info) == [clause |-> clause, obj |-> obj, info |-> info, memo |-> FALSE]
 When(cond, f) == IF cond THEN {} ELSE {f}
@@ -181,10 +181,22 @@ C07Monotone(c, S) ==
 \* --------------------------------------------------------------------- C06 (observable part)
 C06Reset(c, S) == UNION {When(S.comps[b].nrep = 1, Fail("C06.reset", b, S.comps[b].nrep)) : b \in DOMAIN S.comps}
 
+\* --------------------------------------------------------------------- C08
+\* the exported Stim program (repeats expanded, fused targets split) is the listing translated instruction by instruction
+C08Image(H, E, c, S) ==
+  IF S.stim.status = "none" THEN {}
+  ELSE IF S.stim.status # "ok" THEN {Fail("C08.export_error", c, S.stim.status)}
+  ELSE LET want == Split(StimImage(H, E, S, c)) IN
+       When(S.stim.flat = want, Fail("C08.image", c,
+            <<"first difference at", LET n == IF Len(want) < Len(S.stim.flat) THEN Len(want) ELSE Len(S.stim.flat)
+                                          d == {j \in 1..n : want[j] # S.stim.flat[j]} IN
+                                      IF d = {} THEN n + 1 ELSE MinOf(d), "exported", Len(S.stim.flat), "expected", Len(want)>>))
+
 \* ------------------------------------------------- the battery for one observation
 ObsClauses(H, E, c, S, flags) ==
   C02Complete(H, c, S) \cup C02Stable(c, S) \cup C02Contig(H, c, S) \cup C02Causal(H, c, S) \cup C02CausalReported(H, c, S)
   \cup C01Eq(H, c, S) \cup C01Dur(H, E, c, S) \cup C04Span(H, c, S) \cup C04Followers(H, c, S) \cup C03Memo(S)
+  \cup C08Image(H, E, c, S)
   \cup (IF flags.applied THEN C07Indices(c, S) \cup C07Filters(c, S) \cup C06Reset(c, S) ELSE {})
   \cup (IF flags.applied /\ flags.implicit THEN C07Monotone(c, S) ELSE {})
 
@@ -209,7 +221,7 @@ SpecSnapshot(H, E, c) ==
   LET order == LeavesOf(H, c)
       meas(i) == H[i].kind = "DispersiveMeasure"
       mseq == SelectSeq(order, meas) IN
-  [top |-> c, order |-> order, order2 |-> order, by_q |-> <<>>, by_tag |-> <<>>, stim_m |-> [status |-> "none", targets |-> <<>>],
+  [top |-> c, order |-> order, order2 |-> order, by_q |-> <<>>, by_tag |-> <<>>, stim_m |-> [status |-> "none", targets |-> <<>>], stim |-> [status |-> "none", flat |-> <<>>],
    leaves |-> [i \in Range(order) |->
       [kind |-> H[i].kind, qs |-> H[i].qs, chans |-> H[i].chans, dur |-> H[i].dur, tag |-> H[i].tag, pos |-> IndexIn(order, i), home |-> H[i].home, rlink |-> H[i].link,
        start |-> StartOf(H, E, i), dur_v |-> DurOf(H, E, i), end |-> EndOf(H, E, i), start_c |-> StartOf(H, E, i),
